@@ -71,3 +71,44 @@ Proof. exact no_name_is_printed_raw. Qed.
 Theorem C11_names_go_through_escapers :
   forallb (fun p => forallb (fun fa => existsb (String.eqb (fst fa)) escapers) (flat_map snamed (p_body p))) ir_printers = true.
 Proof. exact names_go_through_escapers. Qed.
+
+(* ---- the tie by regeneration: every function of internal/enc/enc.go, translated into the table enc_bodies of
+   Gen/Printers.v on every run (closures lambda-lifted, loops bounded by 1 + the length of the arguments, Go
+   library calls given their meaning in GoEval.go_library) and run by Model/GoEval.v, computes exactly what the
+   model Model/Enc.v computes, for all byte strings.  The statements above about the model's escape_ident, quote,
+   unescape and the six name printers are therefore statements about the code. ---- *)
+From Coq Require Import Strings.String.
+From LLIR Require Model.GoEval Proofs.EncRefinement.
+Local Open Scope string_scope.
+Module ER := EncRefinement.
+Theorem C11_generated_escape_ident_is_the_model : forall s,
+  ER.run_enc "EscapeIdent" [GoEval.VStr s] = GoEval.Ok (GoEval.VStr (escape_ident s)).
+Proof. exact ER.generated_escape_ident_is_model. Qed.
+Theorem C11_generated_escape_string_is_the_model : forall s,
+  ER.run_enc "EscapeString" [GoEval.VStr s] = GoEval.Ok (GoEval.VStr (escape_string s)).
+Proof. exact ER.generated_escape_string_is_model. Qed.
+Theorem C11_generated_quote_is_the_model : forall s,
+  ER.run_enc "Quote" [GoEval.VStr s] = GoEval.Ok (GoEval.VStr (quote s)).
+Proof. exact ER.generated_quote_is_model. Qed.
+Theorem C11_generated_unescape_is_the_model : forall s,
+  ER.run_enc "Unescape" [GoEval.VStr s] = GoEval.Ok (GoEval.VStr (unescape s)).
+Proof. exact ER.generated_unescape_is_model. Qed.
+Theorem C11_generated_names_are_the_model : forall s,
+  ER.run_enc "GlobalName" [GoEval.VStr s] = GoEval.Ok (GoEval.VStr (global_name s)) /\
+  ER.run_enc "LocalName" [GoEval.VStr s] = GoEval.Ok (GoEval.VStr (local_name s)) /\
+  ER.run_enc "LabelName" [GoEval.VStr s] = GoEval.Ok (GoEval.VStr (label_name s)) /\
+  ER.run_enc "TypeName" [GoEval.VStr s] = GoEval.Ok (GoEval.VStr (type_name s)) /\
+  ER.run_enc "ComdatName" [GoEval.VStr s] = GoEval.Ok (GoEval.VStr (comdat_name s)) /\
+  ER.run_enc "MetadataName" [GoEval.VStr s] = match metadata_name s with Some r => GoEval.Ok (GoEval.VStr r) | None => GoEval.Fail "panic" end.
+Proof.
+  intros s. repeat split.
+  - apply ER.generated_global_name_is_model.
+  - apply ER.generated_local_name_is_model.
+  - apply ER.generated_label_name_is_model.
+  - apply ER.generated_type_name_is_model.
+  - apply ER.generated_comdat_name_is_model.
+  - apply ER.generated_metadata_name_is_model.
+Qed.
+Print Assumptions C11_generated_escape_ident_is_the_model.
+Print Assumptions C11_generated_unescape_is_the_model.
+Print Assumptions C11_generated_names_are_the_model.
